@@ -91,6 +91,10 @@ var vCr struct {
 	inside bool   // the process died inside the call
 	hooked bool
 
+	// atomicOnly: removals and writes are treated as atomic in this run (no crash point inside
+	// them; the one inside db.CheckpointRemove stays). Set by the harness, same in both worlds.
+	atomicOnly bool
+
 	// native replay: a write in flight that is to be cut down to a prefix at the next crash point
 	pending    bool
 	pendPath   string
@@ -142,7 +146,7 @@ func vInsidePoint(op, p string, die func()) {
 // choice+1: the i-th entry in name order).
 func vRemoveAllPoints(op, p string) {
 	vPoint(op, p)
-	if !vCr.armed || !vIsDir(p) {
+	if !vCr.armed || vCr.atomicOnly || !vIsDir(p) {
 		return
 	}
 	kids := vList(p)
@@ -179,7 +183,7 @@ func vCanCreate(p string) bool { return vIsDir(filepath.Dir(p)) && !vIsDir(p) }
 // when the file can be created, inside it (see the head of the file: the cut is made afterwards).
 func vWritePoints(op, p string, appendTo bool) {
 	vPoint(op, p)
-	if !vCr.armed || !vCanCreate(p) {
+	if !vCr.armed || vCr.atomicOnly || !vCanCreate(p) {
 		return
 	}
 	vCr.count++
@@ -212,6 +216,9 @@ func vFinishPending() {
 
 // vCutWrite (symbolic run) is the crash point inside a write of data into node n.
 func vCutWrite(op, p string, n *vNode, data []byte) {
+	if vCr.atomicOnly {
+		return
+	}
 	vInsidePoint(op, p, func() {
 		lens := vPrefixLens(len(data))
 		c := vPartialChoice(len(lens))
